@@ -44,30 +44,27 @@ NOT_DECIDED = [
 
 
 def _mask_form(fl, expr, node):
-    """((1 << L) - 1) << S  ->  (L poly, S poly) or None."""
+    """((1 << L) - 1) << S  ->  (L poly, S poly) or None.  In normal form:
+    pow2(L) * pow2(S) - pow2(S)."""
     p = fl.sym(expr, node)
-    if len(p.t) != 1:
+    if len(p.t) != 2:
         return None
-    (m, c), = p.t.items()
-    if c != 1 or len(m) != 1:
+    single = [m for m, c in p.t.items() if len(m) == 1 and c == -1]
+    double = [m for m, c in p.t.items() if len(m) == 2 and c == 1]
+    if len(single) != 1 or len(double) != 1:
         return None
-    info = fl.atom_info.get(m[0])
-    if not info or info[0] != "LShift":
+    si = fl.atom_info.get(single[0][0])
+    if not si or si[0] != "pow2":
         return None
-    inner, S = info[1], info[2]
-    # inner = lshift(1, L) - 1
-    if inner.const_value() != -1:
+    S = si[1]
+    other = [a for a in double[0]]
+    if single[0][0] not in other:
         return None
-    rest = inner + 1
-    if len(rest.t) != 1:
+    other.remove(single[0][0])
+    li = fl.atom_info.get(other[0])
+    if not li or li[0] != "pow2":
         return None
-    (m2, c2), = rest.t.items()
-    if c2 != 1 or len(m2) != 1:
-        return None
-    i2 = fl.atom_info.get(m2[0])
-    if not i2 or i2[0] != "LShift" or i2[1] != Poly.const(1):
-        return None
-    return i2[2], S
+    return li[1], S
 
 
 def r1_scan(program, rep):
